@@ -186,8 +186,12 @@ PROPS = {
                 {"name": "c09_divergent_version", "covers": ["ran"], "quick": {"max_paths": 1000, "timeout": 600}},
                 {"name": "c09_two_versions_both_fetched", "covers": ["ran"], "quick": {"max_paths": 10000, "timeout": 600}},
             ]},
+            {"engine": "D", "crate": "d_node", "harnesses": [
+                {"name": "c09_fetch_from_holder", "covers": ["fetched", "holder_had_it", "holder_sent_something_else", "holder_failed"], "quick": {"max_paths": 10000, "timeout": 600}},
+            ]},
         ],
         "assumptions": COMMON_D_ASSUMPTIONS + [
+            "c09_fetch_from_holder (d_node): request/response with the holder and the network read are scripted outcomes of the model Network; validation and storing are the transplanted put_validation.rs; spawned tasks are run to completion",
             "libp2p's get_closest_local_peers is modelled by its contract (all routing-table peers ascending by XOR distance to the key)",
             "claimed as per-round obligations only (advertise everything to the candidates; act only on lists from the K closest; a divergent version of a held key is scheduled); convergence over rounds is not claimed",
         ],
